@@ -40,6 +40,7 @@ type execCase struct {
 	order  []string
 	faults map[string]string
 	sfx    string
+	syncRes bool // the resolver calls of the requested files rendezvous (tasks start linking together)
 	parZero bool // pass MaxParallelism 0 (the compiler's default) — `par` then states the effective value
 	cancel int // cancel the context after this many resolver calls (<0: never)
 	abort  int // reporter aborts at k-th error (<0: never; -2: nil reporter)
@@ -61,6 +62,8 @@ func parseExecCase(op string) (*execCase, bool) {
 			c.par, _ = strconv.Atoi(v)
 		case "req":
 			c.req = strings.Split(v, ",")
+		case "sync":
+			c.syncRes = v == "1"
 		case "parzero":
 			c.parZero = v == "1"
 		case "sched":
@@ -115,7 +118,18 @@ func (c *execCase) source(f string) string {
 	if c.faults[f] == "syntaxerr" {
 		b.WriteString("message { \n")
 	}
-	if k := c.faults[f]; strings.HasPrefix(k, "dup") {
+	if k := c.faults[f]; strings.HasPrefix(k, "dupp") {
+		// colliding files in a NEW, deeply nested package: the linker registers every package
+		// component in the shared symbol table; no filler, so that the tasks reach that code together
+		comps := make([]string, 32)
+		for j := range comps {
+			comps[j] = fmt.Sprintf("p%d%s", j, strings.TrimSuffix(strings.TrimPrefix(c.sfx, "_"), ".proto"))
+		}
+		hdr := b.String()
+		b.Reset()
+		b.WriteString(strings.Replace(hdr, "\n", "\npackage "+strings.Join(comps, ".")+";\n", 1))
+		fmt.Fprintf(&b, "message Shared_%s {}\n", k)
+	} else if strings.HasPrefix(k, "dup") {
 		// two unrelated files with the same dup group define the same symbol; filler messages make the
 		// linker's check pass long enough for concurrent tasks to overlap
 		fmt.Fprintf(&b, "message Shared_%s {}\n", k)
@@ -380,6 +394,18 @@ func (execEngine) Exec(op string) string {
 			cancel()
 		}
 		f := strings.TrimSuffix(path, sfx)
+		if c.syncRes {
+			// rendezvous: wait until as many resolver calls as requested files have arrived (or 5 ms)
+			for deadline := time.Now().Add(5 * time.Millisecond); time.Now().Before(deadline); {
+				rmu.Lock()
+				n := calls
+				rmu.Unlock()
+				if n >= len(c.req) {
+					break
+				}
+				runtime.Gosched()
+			}
+		}
 		if _, ok := c.graph[f]; !ok {
 			return protocompile.SearchResult{}, errors.New("file does not exist")
 		}
@@ -388,6 +414,20 @@ func (execEngine) Exec(op string) string {
 			return protocompile.SearchResult{}, errors.New("injected resolve error")
 		case "resolvepanic":
 			panic("injected resolver panic " + f)
+		}
+		if strings.HasPrefix(c.faults[f], "dupp") {
+			// supplied as a descriptor proto: no parsing, so the tasks released by the rendezvous
+			// above reach the linker (registration of the package components) together
+			comps := make([]string, 48)
+			for j := range comps {
+				comps[j] = fmt.Sprintf("p%d%s", j, strings.TrimSuffix(strings.TrimPrefix(sfx, "_"), ".proto"))
+			}
+			return protocompile.SearchResult{Proto: &descriptorpb.FileDescriptorProto{
+				Name:        proto.String(path),
+				Syntax:      proto.String("proto3"),
+				Package:     proto.String(strings.Join(comps, ".")),
+				MessageType: []*descriptorpb.DescriptorProto{{Name: proto.String("Shared_" + c.faults[f])}, {Name: proto.String("M_" + f)}},
+			}}, nil
 		}
 		if c.faults[f] == "desc" {
 			// a dependency supplied as a pre-built descriptor (SearchResult.Desc); its Imports()
@@ -601,6 +641,19 @@ func (execEngine) Gen(r *Rand, tier string) [][]string {
 					}
 					add(fmt.Sprintf("compile par=%d req=%s sched=%d graph=%s faults=- cancel=%d", par, req, r.Intn(100000), g, k))
 				}
+			}
+		}
+	}
+	// (1g) colliding files in a new, deeply nested package, started together: the collision must be
+	// reported at every parallelism (registration of package components in the shared table)
+	preps := 150
+	if tier == "thorough" {
+		preps = 1000
+	}
+	for _, par := range []int{2, 4, 8, 16} {
+		for _, req := range []string{"a,b", "b,a"} {
+			for i := 0; i < preps; i++ {
+				add(fmt.Sprintf("compile par=%d req=%s sched=%d graph=a:;b: faults=a=duppk;b=duppk sync=1", par, req, r.Intn(100000)))
 			}
 		}
 	}
